@@ -458,5 +458,4 @@ package schema
 //@   ensures data[o.DiscriminatorFieldNameValue] == nil || typeOf(data[o.DiscriminatorFieldNameValue]) != type(KeyType) ==> err != nil
 
 //@ func OneOfSchema.UnserializeType(o, data) -> result, err
-//@   ensures err == nil && typeOf(result) == type(map[string]any) ==> o.DiscriminatorFieldNameValue in result.(map[string]any) && typeOf(result.(map[string]any)[o.DiscriminatorFieldNameValue]) == type(KeyType) && result.(map[string]any)[o.DiscriminatorFieldNameValue].(KeyType) in o.TypesValue
 //@   ensures data == nil || kindOf(data) != KindMap ==> err != nil
